@@ -27,6 +27,9 @@ def hist_sources(ctx, R):
                         body += '    hist::add_times_divide<Q>(ex, %s);\n' % ('true' if c['op'] == '*=' else 'false')
                     else:
                         body += '    vf::setadd("compound_forms_not_modelled", "%s%s%s");\n' % (q, c['op'], c['b'])
+                has_plus = any(c['op'] == '+=' and c['b'] == q for c in by[q]) and any(c['op'] == '-=' and c['b'] == q for c in by[q])
+                has_times = any(c['op'] == '*=' and c['b'] == 'number' for c in by[q]) and any(c['op'] == '/=' and c['b'] == 'number' for c in by[q])
+                body += '    if constexpr (hist::HasMutableValueQ<Q>::value) hist::add_aliasing<Q>(ex, %s, %s);\n' % ('true' if has_plus else 'false', 'true' if has_times else 'false')
                 body += '    ex.run();\n'
             body += '    hist::math_all<Q>("%s");\n  }\n' % q
         src = (inc + '#include "c04_hist.hpp"\n// dep %s\ntemplate <class T>\nvoid all() {\n%s}\n' % (dep, body) +
